@@ -171,3 +171,174 @@ Example C01_nonvacuous :
   | Err _ => False
   end.
 Proof. vm_compute. repeat split; reflexivity || lia || (repeat constructor). Qed.
+
+From BP Require Import Model.History Model.C07Ops Model.C01Reach Proofs.C01ReachFinal Proofs.C01ReachWit.
+
+(* ---- layer 5: REACHABLE objects.  The two value hypotheses of C01_roundtrip (c01_value_ok, and sow_ok for the
+        observers) are invariants of every history of public-API operations (Model/History.v [op], Model/C07Ops.v
+        [op7]: Cls(kwargs), Cls.from_dict, m.from_dict, attribute assignment and reads at ANY depth, copy, deepcopy,
+        pickle, bytes / len / dump, ==, bool; any length) that starts at Cls(), provided the values handed in are
+        values of their fields.  The conditions (Model/C01Reach.v, all boolean, judged along the run by [hist_ok]):
+          op_value_ok : every value handed to the constructor / __setattr__ / from_dict is of the field's type and in
+                        range ([val_ok]: exactly what in_range asks of the attribute it becomes, messages inside it
+                        clean, dict keys distinct, not PLACEHOLDER); constructor kwargs name at most one member per
+                        oneof group ([kw_groups_ok]; C01_constructor_two_members_refuted: the dataclass __init__
+                        resets no sibling and == fails after the round trip); pickle: bytes(m) shorter than 2^64.
+          op_sow_ok   : a sub-message handed in with its flag down is an all-default one for a plain field outside
+                        every oneof ([flag_ok]; C01_sow_constructor_refuted); in a nested assignment m.a.b.x = v the
+                        holders strictly between m and the object assigned to have their flag up ([set_flags_ok];
+                        known finding K12, C01_lazy_intermediate_refuted).
+        m.parse(bytes) on an existing object is NOT discharged: for it both conditions are the check of the
+        resulting state (post_value_ok / post_sow_ok) - arbitrary bytes can carry unknown fields
+        (C01_parse_leaves_value_ok_refuted) and parse into a used object merges.  Reads, copies, observers, ==, bool
+        are unrestricted. *)
+Theorem C01_reachable_value_ok : forall sc c ops o,
+  c01_schema_ok sc = true -> hist_ok op_value_ok sc (new sc c) ops = true ->
+  run7 sc (new sc c) ops = Ok o -> c01_value_ok sc o = true.
+Proof. exact c01_reachable_value_ok. Qed.
+Print Assumptions C01_reachable_value_ok.
+
+Theorem C01_reachable_sow_ok : forall sc c ops o,
+  c01_schema_ok sc = true -> hist_ok op_reach_ok sc (new sc c) ops = true ->
+  run7 sc (new sc c) ops = Ok o -> c01_value_ok sc o = true /\ sow_ok sc o = true.
+Proof. exact c01_reachable_sow_ok. Qed.
+Print Assumptions C01_reachable_sow_ok.
+
+(* the same from ANY state that satisfies the two conditions (e.g. a decoded message), not only from Cls() *)
+Theorem C01_run_keeps : forall sc ops o o',
+  c01_schema_ok sc = true -> c01_value_ok sc o = true -> sow_ok sc o = true ->
+  hist_ok op_reach_ok sc o ops = true -> run7 sc o ops = Ok o' -> c01_value_ok sc o' = true /\ sow_ok sc o' = true.
+Proof. exact c01_run_keeps. Qed.
+Print Assumptions C01_run_keeps.
+
+(* one operation *)
+Theorem C01_step_keeps : forall sc o p o' x,
+  c01_schema_ok sc = true -> c01_value_ok sc o = true -> sow_ok sc o = true ->
+  op_reach_ok sc o p = true -> step7 sc o p = Ok (o', x) -> c01_value_ok sc o' = true /\ sow_ok sc o' = true.
+Proof.
+  intros sc o p o' x Hs Hv Hw Hp E. apply (c01_run_keeps sc [p] o o' Hs Hv Hw).
+  - cbn [hist_ok]. rewrite Hp, E. reflexivity.
+  - cbn [run7]. rewrite E. reflexivity.
+Qed.
+Print Assumptions C01_step_keeps.
+
+(* the full conclusion of C01_roundtrip for every reachable object (the observers unconditionally) *)
+Theorem C01_roundtrip_reachable : forall sc c ops m,
+  c01_schema_ok sc = true -> hist_ok op_reach_ok sc (new sc c) ops = true -> run7 sc (new sc c) ops = Ok m ->
+  exists bs, enc_obj sc m = Ok bs /\
+    (Zlength bs < 2 ^ 64 ->
+     exists m', parse sc (ocls m) bs = Ok m' /\ m' = norm_obj sc m /\
+       (deep nan_free (PMsg m) = true -> obj_eq sc m m' = true) /\
+       (forall g, which_one_of m' g = which_one_of m g) /\
+       obs_top sc m m' = true /\
+       enc_obj sc m' = Ok bs).
+Proof. exact c01_roundtrip_reachable. Qed.
+Print Assumptions C01_roundtrip_reachable.
+
+(* ... and under the value condition alone, everything but the observers *)
+Theorem C01_roundtrip_reachable_values : forall sc c ops m,
+  c01_schema_ok sc = true -> hist_ok op_value_ok sc (new sc c) ops = true -> run7 sc (new sc c) ops = Ok m ->
+  exists bs, enc_obj sc m = Ok bs /\
+    (Zlength bs < 2 ^ 64 ->
+     exists m', parse sc (ocls m) bs = Ok m' /\ m' = norm_obj sc m /\
+       (deep nan_free (PMsg m) = true -> obj_eq sc m m' = true) /\
+       (forall g, which_one_of m' g = which_one_of m g) /\
+       (sow_ok sc m = true -> obs_top sc m m' = true) /\
+       enc_obj sc m' = Ok bs).
+Proof. exact c01_roundtrip_reachable_values. Qed.
+Print Assumptions C01_roundtrip_reachable_values.
+
+(* ---- what the conditions exclude, as reachable objects (witness schema Proofs/C01ReachWit.v [w_sc]) ---- *)
+(* M(x=5, y="x") with x, y in one oneof: every value is fine, the hidden x = 5 stays in the raw state and == fails after
+   the round trip, in both directions (confirmed on the implementation; not a recorded finding before this proof) *)
+Theorem C01_constructor_two_members_refuted :
+  exists sc c kw m bs m',
+    c01_schema_ok sc = true /\ kw_vals_ok sc c kw = true /\ kw_flags_ok sc c kw = true /\ kw_groups_ok sc c kw = false /\
+    run7 sc (new sc c) [OConstruct kw] = Ok m /\
+    oneof_clean sc m = false /\ c01_value_ok sc m = false /\
+    enc_obj sc m = Ok bs /\ parse sc c bs = Ok m' /\ obj_eq sc m m' = false /\ obj_eq sc m' m = false.
+Proof. exact constructor_two_members_refuted. Qed.
+Print Assumptions C01_constructor_two_members_refuted.
+
+(* M(s=B()) with s a oneof member (and M(o=B()) with o optional): sow_ok is NOT an invariant without flag_ok *)
+Theorem C01_sow_constructor_refuted :
+  exists sc c kw m,
+    c01_schema_ok sc = true /\ hist_ok op_value_ok sc (new sc c) [OConstruct kw] = true /\
+    kw_flags_ok sc c kw = false /\
+    run7 sc (new sc c) [OConstruct kw] = Ok m /\
+    c01_value_ok sc m = true /\ sow_ok sc m = false /\ obs_top sc m (norm_obj sc m) = false.
+Proof. exact sow_constructor_refuted. Qed.
+Print Assumptions C01_sow_constructor_refuted.
+
+Theorem C01_sow_constructor_optional_refuted :
+  exists sc c kw m,
+    c01_schema_ok sc = true /\ hist_ok op_value_ok sc (new sc c) [OConstruct kw] = true /\
+    kw_flags_ok sc c kw = false /\
+    run7 sc (new sc c) [OConstruct kw] = Ok m /\
+    c01_value_ok sc m = true /\ sow_ok sc m = false /\ obs_top sc m (norm_obj sc m) = false.
+Proof. exact sow_constructor_optional_refuted. Qed.
+Print Assumptions C01_sow_constructor_optional_refuted.
+
+(* K12 inside the operation model: m = M(); m.a; m.a.b.x = 0.  The history satisfies the value condition and fails
+   set_flags_ok.  The state satisfies every hypothesis of C01_roundtrip (sow_ok at every depth) and its conclusion
+   (which is about the attributes of m itself) - but bytes(m) is empty and serialized_on_wire(m.a.b) is True before
+   and False after.  With a non-default value (x = 5) sow_ok itself fails and serialized_on_wire(m.a) differs. *)
+Theorem C01_lazy_intermediate_refuted :
+  exists sc c ops m m',
+    c01_schema_ok sc = true /\ hist_ok op_value_ok sc (new sc c) ops = true /\ hist_ok op_reach_ok sc (new sc c) ops = false /\
+    run7 sc (new sc c) ops = Ok m /\
+    c01_value_ok sc m = true /\ deep (sow_ok sc) (PMsg m) = true /\
+    enc_obj sc m = Ok [] /\ parse sc c [] = Ok m' /\ obj_eq sc m m' = true /\ obs_top sc m m' = true /\
+    res_flag (snd (get_in sc m [0%nat] 0)) = true /\ res_flag (snd (get_in sc m' [0%nat] 0)) = false.
+Proof. exact lazy_intermediate_refuted. Qed.
+Print Assumptions C01_lazy_intermediate_refuted.
+
+Theorem C01_lazy_intermediate_nondefault_refuted :
+  exists sc c ops m,
+    c01_schema_ok sc = true /\ hist_ok op_value_ok sc (new sc c) ops = true /\ hist_ok op_reach_ok sc (new sc c) ops = false /\
+    run7 sc (new sc c) ops = Ok m /\
+    c01_value_ok sc m = true /\ sow_ok sc m = false /\ obs_top sc m (norm_obj sc m) = false.
+Proof. exact lazy_intermediate_nondefault_refuted. Qed.
+Print Assumptions C01_lazy_intermediate_nondefault_refuted.
+
+Theorem C01_parse_leaves_value_ok_refuted :
+  exists sc c bs m,
+    c01_schema_ok sc = true /\
+    run7 sc (new sc c) [OBase (OParse bs)] = Ok m /\ no_unknown m = false /\ c01_value_ok sc m = false.
+Proof. exact parse_leaves_value_ok_refuted. Qed.
+Print Assumptions C01_parse_leaves_value_ok_refuted.
+
+(* ---- non-vacuity: twelve operations of nine kinds on ex_schema (constructor with a oneof member and a repeated field,
+        assignment of the sibling member, nested read that creates m.b lazily, nested assignments at depth 1, 2 and 3
+        - each holder flagged by the assignment before -, bytes, copy, deepcopy, m.from_dict with an optional, a
+        wrapper and a map of messages, pickle, len) ---- *)
+Definition ex_hist : list op7 :=
+  [OConstruct [(0%nat, PInt (-5)); (2%nat, PStr [x78]); (6%nat, PList [PInt 4294967295])];
+   OBase (OSet [] 3 (PInt (-1)));
+   OBase (OGet [1%nat] 0);
+   OBase (OSet [1%nat] 0 (PInt 7));
+   OBase OBytes;
+   OBase OCopy;
+   OBase ODeepcopy;
+   OFromDictInst [(4%nat, PFloat 9223372036854775808); (5%nat, PInt 0);
+                  (8%nat, PDict [(PStr [x6b], PMsg (new ex_schema 11))])];
+   OBase (OSet [1%nat; 1%nat] 9 (PDatetime (-1500000)));
+   OBase (OSet [1%nat; 1%nat; 1%nat] 2 (PStr []));
+   OBase OPickle;
+   OBase OLen].
+Example C01_reachable_nonvacuous :
+  hist_ok op_reach_ok ex_schema (new ex_schema 11) ex_hist = true /\
+  forallb op_static ex_hist = true /\
+  match run7 ex_schema (new ex_schema 11) ex_hist with
+  | Ok o => c01_value_ok ex_schema o = true /\ sow_ok ex_schema o = true /\ c01_holds ex_schema o = true /\
+            which_one_of o 0 = Some 3%nat /\
+            match enc_obj ex_schema o with Ok bs => (60 < length bs)%nat | Err _ => False end
+  | Err _ => False
+  end.
+Proof. vm_compute. repeat split; reflexivity || lia || (repeat constructor). Qed.
+
+(* the flagged variant of the K12 history is inside the conditions *)
+Example C01_lazy_intermediate_flagged_ok :
+  hist_ok op_reach_ok w_sc (new w_sc 11)
+    [OBase (OGet [] 0); OBase (OSet [0%nat] 0 (PMsg (new w_sc 13))); OBase (OSet [0%nat; 0%nat] 0 (PInt 0))] = true.
+Proof. exact lazy_intermediate_flagged_ok. Qed.
